@@ -19,7 +19,7 @@ def run(ck):
     if quick:
         hs.append(H('c05_table_n1', cap=900, meaning='n<=1, same assertions (fast witness)'))
     else:
-        hs += [H('c05_table_n3', cap=7200, meaning='n<=3'), H('c05_table_n2_leap1', cap=7200, required=False, meaning='n<=2 with one leap-second record')]
+        hs += [H('c05_table_n3', cap=7200, meaning='n<=3'), H('c05_table_leap1_n2', cap=7200, required=False, meaning='n<=2 with one leap-second record')]
     kprop.run_harnesses(ck, hs, on_fail=lambda B, h: kprop.replay_search_failure(ck, B, h, int(re.search(r'_n(\d)', h.name).group(1))))
     ck.functions += ['datetime::find::find_date_time', 'DateTime::find_n', 'FoundDateTimeListRefMut::{push,data,count,is_exhaustive,unique}', 'TimeZoneRef::find_local_time_type', 'TimeZoneRef::unix_time_to_unix_leap_time', 'TimeZoneRef::unix_leap_time_to_unix_time', 'DateTime::from_timespec_and_local']
     ck.explanation = 'Search and forward lookup are two different algorithms; CBMC decides that they agree for every zone up to the bound, every civil time and every instant (relation over all zones x all local times).'
